@@ -38,7 +38,12 @@ RULE = ("ops: mk (constructor, ints around 0 / 2^11 / 2^29 / 2^31 / 2^32 incl. n
         "removed again, global attribute definitions with defaults, VFrameFormat frame attributes (agreeing with the frame kinds, on all or some "
         "frames) with their definition, ECUs and transmitters, CAN FD frames beside the J1939 ones; the matrix is the one built through the API, "
         "its deepcopy, the target of CanMatrix.merge, the result of dbc.dump + dbc.load, or read from a DBC text the harness writes itself "
-        "(BA_ \"ProtocolType\" \"...\", BA_ \"VFrameFormat\" BO_ ... 3). Which frame decodes a received identifier depends on the frames alone.")
+        "(BA_ \"ProtocolType\" \"...\", BA_ \"VFrameFormat\" BO_ ... 3). Which frame decodes a received identifier depends on the frames alone. "
+        "Frame kinds with a history ('was' / 'reflag' / 'exported' in the context): the matrix was built, read or exported (dbc.dump into a buffer, "
+        "which leaves VFrameFormat on every frame) while its frames were of other kinds - plain extended frames, or J1939 ones - and the frames are "
+        "flagged afterwards by assignment (frame.is_j1939 = ..., all frames incl. the 11-bit ones as canconvert --convertToJ1939 does, or "
+        "some / none as --convertToExtended does), or constructed with the flag while the attributes name the earlier kind: the VFrameFormat "
+        "attributes, definitions and global attributes left over from the earlier state are stale, the flags the frames have now decide.")
 EXHAUSTIVE = {"quick": False, "thorough": False}
 PARTIAL = ["the payload decoding after frame resolution is C01's; here only which frame is chosen is compared"]
 ASSUMPTIONS = ["identifiers are Python ints, the extended flag a bool (the deprecated extended=None wildcard is outside the domain)"]
@@ -461,15 +466,32 @@ def rand_ctx(rng, frames):
             gdefs.append([n, "STRING", rng.choice(GLOBAL_ATTRS[n] + [None, None])])
     nfd = 0 if load == "dbcdump" or rng.random() < 0.7 else rng.choice([1, 1, 2])
     fd = sorted(rng.sample(range(len(frames)), min(nfd, len(frames))))
+    ctx = {"load": load, "attrs": attrs, "gdefs": gdefs, "fattr": rng.choice([0, 0, 1, 1, 2]), "ecus": rng.choice([0, 0, 1, 3])}
+    was = None
+    if rng.random() < 0.4:
+        # the frame kinds have a history: the matrix was built / read / exported while its frames were of other kinds, the flags the case
+        # names are assigned afterwards (see build_matrix)
+        mode = rng.choice(["plain", "plain", "j1939", "mixed"])
+        was = [bool(f[2]) and (mode == "j1939" or (mode == "mixed" and rng.random() < 0.5)) for f in frames]
+        ctx["was"] = was
+        ctx["reflag"] = rng.choice(["assign", "assign", "assign", "ctor"])
+        ctx["exported"] = rng.random() < 0.4
+        ctx["convert"] = rng.choice(["", "", "j1939", "extended"]) if mode != "mixed" else ""
+        if ctx["fattr"] == 0 and rng.random() < 0.5:
+            ctx["fattr"] = 1
     if load == "dbctext":
         # in a DBC file a frame is of one kind: J1939PG or CAN FD
-        fd = [x for x in fd if not frames[x][3]]
-    return {"load": load, "attrs": attrs, "gdefs": gdefs, "fattr": rng.choice([0, 0, 1, 1, 2]), "ecus": rng.choice([0, 0, 1, 3]), "fd": fd}
+        fd = [x for x in fd if not frames[x][3] and not (was and was[x])]
+    ctx["fd"] = fd
+    return ctx
 
 
 def with_ctx(rng, case):
     c = case["c"]
-    c["ctx"] = rand_ctx(rng, c["frames"])
+    c["ctx"] = ctx = rand_ctx(rng, c["frames"])
+    if case["op"] == "resolve" and ctx.get("convert"):
+        # canconvert flags every frame of the matrix, the 11-bit ones as well: --convertToJ1939 / --convertToExtended
+        c["frames"] = [list(f[:3]) + [ctx["convert"] == "j1939"] + list(f[4:]) for f in c["frames"]]
     return case
 
 
@@ -653,6 +675,12 @@ def run_history(db, c):
             pass
 
 
+def was_of(ctx, n, j):
+    """the J1939 flag frame n had while the matrix was built / read / exported (the flag of the case is assigned afterwards)"""
+    w = (ctx or {}).get("was")
+    return bool(w[n]) if w is not None and n < len(w) else bool(j)
+
+
 def vff_of(ext, j, fd):
     """the VFrameFormat text of a frame kind"""
     return "J1939PG" if j else ("ExtendedCAN" if ext else "StandardCAN") + ("_FD" if fd else "")
@@ -702,6 +730,7 @@ def dbc_text(c, size):
     fattr = ctx.get("fattr") or 0
     for n, f in enumerate(c["frames"]):
         name, i, ext, j = f[:4]
+        j = was_of(ctx, n, j)
         if j or n in fd or fattr == 1 or (fattr == 2 and n % 2):
             out.append('BA_ "VFrameFormat" BO_ %d %d;' % (i | (1 << 31) if ext else i, VFF.index(vff_of(ext, j, n in fd))))
     return ("\n".join(out) + "\n").encode("utf-8")
@@ -719,7 +748,7 @@ def build_matrix(c, size):
         import canmatrix.formats.dbc
         with contextlib.redirect_stdout(io.StringIO()):
             db = canmatrix.formats.dbc.load(io.BytesIO(dbc_text(c, size)), dbcImportEncoding="utf8")
-        return db
+        return reflag(db, c)
     db = cm.CanMatrix()
     for name, kind, default in ctx.get("gdefs") or []:
         db.add_global_defines(name, kind)
@@ -738,7 +767,10 @@ def build_matrix(c, size):
         db.add_define_default("VFrameFormat", "StandardCAN")
     for n, f in enumerate(c["frames"]):
         name, i, ext, j = f[:4]
-        fr = cm.Frame(name, arbitration_id=obtain(i, ext, opt(f, 4)), size=size, is_j1939=j)
+        wj = was_of(ctx, n, j)
+        # (frame kinds with a history: the frame is created as what it was then - or, 'ctor', with the flag it has now while the
+        # attributes still name the earlier kind)
+        fr = cm.Frame(name, arbitration_id=obtain(i, ext, opt(f, 4)), size=size, is_j1939=j if ctx.get("reflag") == "ctor" else wj)
         fr.add_signal(cm.Signal("sig_" + name, start_bit=0, size=8, is_signed=False))
         if n in fd:
             fr.is_fd = True
@@ -746,11 +778,19 @@ def build_matrix(c, size):
             fr.add_transmitter(ecus[n % len(ecus)])
             fr.signals[0].add_receiver(ecus[-1])
         if fattr == 1 or (fattr == 2 and n % 2):
-            fr.add_attribute("VFrameFormat", vff_of(ext, j, n in fd))
+            fr.add_attribute("VFrameFormat", vff_of(ext, wj, n in fd))
         db.add_frame(fr)
     for a in ctx.get("attrs") or []:
         if a[0] == "after":
             set_global(db, a)
+    if ctx.get("exported"):
+        # the matrix was exported once (the exporter leaves VFrameFormat attributes, definitions and ProtocolType / BusType behind)
+        import canmatrix.formats.dbc
+        try:
+            with contextlib.redirect_stdout(io.StringIO()):
+                canmatrix.formats.dbc.dump(db, io.BytesIO())
+        except Exception:  # noqa
+            pass
     if load == "deepcopy":
         db.contains_j1939, db.contains_fd
         db = pycopy.deepcopy(db)
@@ -767,6 +807,19 @@ def build_matrix(c, size):
         with contextlib.redirect_stdout(io.StringIO()):
             canmatrix.formats.dbc.dump(db, buf)
             db = canmatrix.formats.dbc.load(io.BytesIO(buf.getvalue()))
+    return reflag(db, c)
+
+
+def reflag(db, c):
+    """frame kinds with a history: the frames get the flags the case names by assignment, after the matrix was built / read / exported
+    with the earlier ones (what canconvert's --convertToJ1939 / --convertToExtended do with a matrix they have read)"""
+    if (c.get("ctx") or {}).get("was") is None:
+        return db
+    db.contains_j1939
+    for f in c["frames"]:
+        fr = db.frame_by_name(f[0])
+        if fr is not None:
+            fr.is_j1939 = bool(f[3])
     return db
 
 
@@ -929,6 +982,16 @@ def features(case, impl):
         yield "matrix context: global definitions=%d" % len(ctx["gdefs"])
         yield "matrix context: VFrameFormat attributes " + ["from the reader/exporter only", "on all frames", "on some frames"][ctx["fattr"]]
         yield "matrix context: ECUs=%d" % ctx["ecus"]
+        if ctx.get("was") is not None:
+            ch = [(was_of(ctx, n, f[3]), bool(f[3])) for n, f in enumerate(c["frames"])]
+            yield "frame kinds with a history: %s%s" % (ctx.get("reflag"), ", exported before" if ctx.get("exported") else "")
+            if any(w and not j for w, j in ch):
+                yield "frame kinds with a history: a J1939 frame became a plain one"
+            if any(j and not w for w, j in ch):
+                yield "frame kinds with a history: a plain frame became a J1939 one" + (
+                    ", none was one before" if not any(w for w, _ in ch) else "")
+            if any(j and not f[2] for f in c["frames"] for j in [f[3]]):
+                yield "frame kinds with a history: 11-bit frames flagged J1939 as well"
         if ctx["fd"]:
             yield "matrix context: CAN FD frames" + (" (one of them a J1939 frame)" if any(c["frames"][x][3] for x in ctx["fd"]) else "")
     if case["op"] in ("jdec", "resolve"):
@@ -973,6 +1036,8 @@ def _smaller(case):
                 if ctx:
                     # (the VFrameFormat attributes "on some frames" go by position: the context keeps its shape, the frames move)
                     less["ctx"] = dict(ctx, fd=[x - (x > i) for x in ctx.get("fd") or [] if x != i])
+                    if ctx.get("was") is not None:
+                        less["ctx"]["was"] = ctx["was"][:i] + ctx["was"][i + 1:]
                 yield keep_out({"op": case["op"], "c": less})
         if ctx:
             # a smaller context: the plain API path, fewer attributes, no definitions, no frame attributes, no ECUs, no CAN FD frames
@@ -983,7 +1048,9 @@ def _smaller(case):
             for i, a in enumerate(ctx.get("attrs") or []):
                 if a[3] != "set" or a[0] != "after":
                     yield keep_out({"op": case["op"], "c": dict(c, ctx=dict(ctx, attrs=ctx["attrs"][:i] + [["after", a[1], a[2], "set", a[4]]] + ctx["attrs"][i + 1:]))})
-            for key, empty in (("gdefs", []), ("fattr", 0), ("ecus", 0), ("fd", [])):
+            if ctx.get("was") is not None:
+                yield keep_out({"op": case["op"], "c": dict(c, ctx={kk: vv for kk, vv in ctx.items() if kk not in ("was", "reflag", "exported", "convert")})})
+            for key, empty in (("gdefs", []), ("fattr", 0), ("ecus", 0), ("fd", []), ("exported", False)):
                 if ctx.get(key):
                     yield keep_out({"op": case["op"], "c": dict(c, ctx=dict(ctx, **{key: empty}))})
         for i in range(len(hist)):
